@@ -21,7 +21,7 @@ pub fn spec() -> Spec {
     Spec {
         prop: "C09",
         level: "exploration",
-        rule: "Structure-aware fuzzing of every registered method (names from the real method table) against the real engine in-process: well-formed templates with typed mutation (boundary integers, string-typed numbers, empty/odd/non-hex/huge strings, every base64 prefix byte, truncated and bomb frames, null/array/object swaps, missing/extra fields, positional vs named), random and mutated bytecode as init code / call data, ABI-valid boundary inputs and ABI-invalid bytes to every custom and standard precompile through eth_call, eth_callMany (with Bitcoin-transaction overrides) and executed transactions, in engine states {empty, initialised, mid-block, after reorg, after clearCaches}. Oracles: process-wide panic hook (any panic while serving = violation; the shipped binary aborts), a liveness probe after requests (eth_blockNumber, a block read, and a write round that must raise the height by exactly one), logical hang witnesses (brc20_mine(k) must return with height = start + k), watchdog => inconclusive. The build mirrors release arithmetic (overflow checks off). Non-trivial = request that reached a handler; distinct by (method, outcome class, mutation class).",
+        rule: "Structure-aware fuzzing of every registered method (names from the real method table) against the real engine in-process: well-formed templates with typed mutation (boundary integers, string-typed numbers, empty/odd/non-hex/huge strings, every base64 prefix byte, truncated and bomb frames, null/array/object swaps, missing/extra fields, positional vs named), random and mutated bytecode as init code / call data, ABI-valid boundary inputs and ABI-invalid bytes to every custom and standard precompile through eth_call, eth_callMany (with Bitcoin-transaction overrides) and executed transactions, in engine states {empty, initialised, mid-block, after reorg, after clearCaches}. Oracles: process-wide panic hook (any panic while serving = violation; the shipped binary aborts), a liveness probe after requests (eth_blockNumber, a block read, and a write round that must raise the height by exactly one), logical hang witnesses (brc20_mine(k) must return with height = start + k), watchdog => inconclusive. Sanitizer pass: on one shard in eight a small worker of this check is re-executed under valgrind memcheck (every native library instrumented: RocksDB, zstd, secp256k1, the revm precompile back ends); any memcheck report = violation. The build mirrors release arithmetic (overflow checks off). Non-trivial = request that reached a handler; distinct by (method, outcome class, mutation class).",
         assumptions: vec![
             "the fake Bitcoin node is up: loss of the node and its documented 'Bitcoin RPC unreachable' panic are environment faults".into(),
             "brc20_mine is only asked for small counts: running time proportional to the requested count is by design".into(),
@@ -656,11 +656,100 @@ fn http_sample(ctx: &WorkerCtx, rep: &mut WorkerReport, rng: &mut Rng, btc: &str
     rpc::remove_dir(&dir);
 }
 
+/// Sanitizer pass: one small worker of this very check re-executed under valgrind memcheck, so that
+/// the hostile requests run through the whole engine (RocksDB, zstd, secp256k1, revm precompiles)
+/// with every native library instrumented. The engine asks for RLIMIT_NOFILE (4096, 8192) when it
+/// opens a database, which valgrind only grants when its own descriptor ceiling is exactly 8192:
+/// the child's soft limit is set accordingly before exec.
+fn memcheck_pass(ctx: &WorkerCtx, rep: &mut WorkerReport) {
+    use std::os::unix::process::CommandExt;
+    if std::process::Command::new("valgrind").arg("--version").output().is_err() {
+        rep.notes.push("valgrind not available: whole-engine memcheck pass skipped".into());
+        return;
+    }
+    let exe = std::env::current_exe().unwrap();
+    let dir = rpc::fresh_dir("C09");
+    let log = dir.join("memcheck.log");
+    let out = dir.join("memcheck-report.json");
+    let mut cmd = std::process::Command::new("valgrind");
+    cmd.args(["--error-exitcode=99", "--leak-check=no", "--quiet", &format!("--log-file={}", log.display())])
+        .arg(exe)
+        .args(["worker", "C09", &ctx.tier, &ctx.seed.to_string(), &ctx.shard.to_string(), &ctx.nshards.to_string(), out.to_str().unwrap(), "memcheck"])
+        .stdout(std::process::Stdio::null())
+        .stderr(std::process::Stdio::null());
+    unsafe {
+        cmd.pre_exec(|| {
+            let mut rl = libc::rlimit { rlim_cur: 0, rlim_max: 0 };
+            if libc::getrlimit(libc::RLIMIT_NOFILE, &mut rl) == 0 && rl.rlim_max >= 8192 + 12 {
+                rl.rlim_cur = 8192;
+                libc::setrlimit(libc::RLIMIT_NOFILE, &rl);
+            }
+            Ok(())
+        });
+    }
+    let started = std::time::Instant::now();
+    let mut child = match cmd.spawn() {
+        Ok(c) => c,
+        Err(e) => {
+            rep.notes.push(format!("valgrind could not be run: {}", e));
+            return;
+        }
+    };
+    // generous wall-clock watchdog: its firing is inconclusive
+    let status = loop {
+        match child.try_wait() {
+            Ok(Some(st)) => break Some(st),
+            Ok(None) => {
+                if started.elapsed() > Duration::from_secs(900) {
+                    let _ = child.kill();
+                    let _ = child.wait();
+                    break None;
+                }
+                std::thread::sleep(Duration::from_millis(200));
+            }
+            Err(_) => break None,
+        }
+    };
+    let text = std::fs::read_to_string(&log).unwrap_or_default();
+    let child_rep = crate::report::read_report(&out);
+    match status.and_then(|s| s.code()) {
+        Some(99) => {
+            let first = text.lines().find(|l| l.contains("Invalid") || l.contains("uninitialised") || l.contains("Mismatched") || l.contains("overlap")).unwrap_or("").to_string();
+            let frames: Vec<&str> = text.lines().filter(|l| l.contains(" at 0x") || l.contains(" by 0x")).take(8).collect();
+            violation(rep, "C09", ctx.seed, &format!("memcheck:{}", first.split("==").last().unwrap_or("").trim().chars().take(40).collect::<String>()),
+                format!("valgrind memcheck reported a memory error while the engine served hostile requests: {}", first), json!({"frames": frames, "log": text.chars().take(6000).collect::<String>()}));
+        }
+        Some(0) => {
+            if let Some(cr) = child_rep {
+                rep.evaluations += cr.evaluations;
+                rep.count("requests_under_memcheck", cr.evaluations);
+                rep.nontrivial("memcheck-clean-whole-engine".to_string());
+                rep.notes.push(format!("valgrind memcheck: {} hostile requests through the whole engine, no report ({:.0} s)", cr.evaluations, started.elapsed().as_secs_f64()));
+                // what the instrumented worker itself found (panics, lost liveness) counts; its timeouts do not
+                rep.violations.extend(cr.violations);
+                if cr.inconclusive > 0 {
+                    rep.notes.push(format!("memcheck worker: {} slow requests under instrumentation ignored", cr.inconclusive));
+                }
+            } else {
+                rep.inconclusive("memcheck worker ended without a report");
+            }
+        }
+        other => {
+            rep.inconclusive(format!("valgrind run ended with {:?} after {:.0} s: {}", other, started.elapsed().as_secs_f64(), text.chars().take(300).collect::<String>()));
+        }
+    }
+    rpc::remove_dir(&dir);
+}
+
 pub fn worker(ctx: &WorkerCtx) -> WorkerReport {
     let btc = crate::setup_env("regtest", true);
     let mut rep = WorkerReport::default();
     let mut rng = ctx.rng();
-    if ctx.shard % 8 == 0 {
+    let under_memcheck = ctx.extra.iter().any(|x| x == "memcheck");
+    if !under_memcheck && ctx.shard % 8 == 1 {
+        memcheck_pass(ctx, &mut rep);
+    }
+    if !under_memcheck && ctx.shard % 8 == 0 {
         http_sample(ctx, &mut rep, &mut rng, &btc);
         // start() replaced the process configuration: restore the harness one
         rpc::set_global_config("regtest", true, &btc);
@@ -675,8 +764,8 @@ pub fn worker(ctx: &WorkerCtx) -> WorkerReport {
     };
     rep.count("registered_methods", if ctx.shard == 0 { names.len() as u64 } else { 0 });
     let states: [&'static str; 5] = ["empty", "initialised", "mid-block", "after-reorg", "after-clear"];
-    let rounds = if ctx.thorough() { 40 } else { 5 };
-    let per = if ctx.thorough() { 500 } else { 100 };
+    let rounds = if under_memcheck { if ctx.thorough() { 5 } else { 2 } } else if ctx.thorough() { 40 } else { 5 };
+    let per = if under_memcheck { 40 } else if ctx.thorough() { 500 } else { 100 };
     let mut failures = 0;
     for r in 0..rounds {
         let state = states[((ctx.shard + r) % 5) as usize];
